@@ -88,11 +88,17 @@ struct RecAlloc : public babylon::PageAllocator {
   size_t page_size() const noexcept override { return ps; }
   using PageAllocator::allocate;
   using PageAllocator::deallocate;
+  // a real page allocator synchronises inside (queue, lock): the caller can be
+  // descheduled on the way in and on the way out
   void allocate(void** out, size_t num) noexcept override {
+    sim::yield_point();
     for (size_t i = 0; i < num; i++) out[i] = one();
+    sim::yield_point();
   }
   void deallocate(void** pp, size_t num) noexcept override {
+    sim::yield_point();
     for (size_t i = 0; i < num; i++) back(pp[i]);
+    sim::yield_point();
   }
   void* one() {
     EntryRec* e = tl_cur;
@@ -198,6 +204,7 @@ void RecAlloc::back(void* p) {
 }
 
 std::tuple<int, int> SinkFile::check_and_get_file_descriptor() noexcept {
+  sim::yield_point();  // a real file object stats / opens files here
   calls++;
   // probes: what is the writer about to flush to this object?
   size_t starts = 0, niov = 0;
